@@ -101,28 +101,109 @@ def check(rep, F, tier, replay=None):
     if fid:
         hir = F.hir[fid]
         rep.inst("PREIMAGE")
-        ifs = [n for n in H.walk(hir["body"]) if n[0] == "if" and not (H.is_node(n[2]) and n[2][0] == "letx")]
-        ok = False
+        # evaluate the function on the four states (redeemers empty?, datums present?): the sequence of buffer appends per state
+        class _Shape(Exception):
+            pass
+        pnames = [nm for p_ in hir["params"] for nm in H.pat_bindings(p_)]
+        RED, DAT = (pnames + ["redeemers", "cost_models", "datums"])[0], (pnames + ["redeemers", "cost_models", "datums"])[2]
+
+        def cond_(c, st):
+            c = H.strip(c)
+            if not H.is_node(c):
+                raise _Shape("condition")
+            if c[0] == "binary" and c[2] in ("And", "Or"):
+                a = cond_(c[3], st)
+                if c[2] == "And":
+                    return a and cond_(c[4], st)
+                return a or cond_(c[4], st)
+            if c[0] == "unary" and c[2] == "Not":
+                return not cond_(c[3], st)
+            if c[0] == "mcall" and not c[5] and H.path_str(c[4], st["env"]) in (DAT,) and c[2] in ("is_some", "is_none"):
+                return st["D"] == (c[2] == "is_some")
+            if c[0] == "mcall" and not c[5] and H.path_str(c[4], st["env"]) == RED and c[2] == "is_empty":
+                return st["E"]
+            if c[0] == "binary" and c[2] in ("Eq", "Ne", "Gt") and H.is_node(H.strip(c[3])) and H.strip(c[3])[0] == "mcall" and H.strip(c[3])[2] == "len" and H.path_str(H.strip(c[3])[4], st["env"]) == RED and H.lit_int(c[4]) == 0:
+                return st["E"] if c[2] == "Eq" else not st["E"]
+            raise _Shape("condition %s" % c[0])
+
+        def seq_(n, st, out):
+            n_ = n
+            if not H.is_node(n_):
+                return
+            k = n_[0]
+            if k == "block":
+                for s_ in n_[2]:
+                    for part in ([s_[3], s_[4]] if s_[0] == "let" else [s_[2]]):
+                        if part is not None:
+                            seq_(part, st, out)
+                if n_[3] is not None:
+                    seq_(n_[3], st, out)
+                return
+            if k == "if":
+                c = n_[2]
+                if H.is_node(c) and c[0] == "letx":
+                    ip = H.path_str(c[3], st["env"])
+                    v = H.pat_variant(c[2]) or ""
+                    if ip != DAT or not v.endswith(("Some", "None")):
+                        raise _Shape("if let on %s" % ip)
+                    take = st["D"] == v.endswith("Some")
+                    if take:
+                        st2 = dict(st, env=dict(st["env"], **{b: DAT for b in H.pat_bindings(c[2])}))
+                        seq_(n_[3], st2, out)
+                    elif n_[4] is not None:
+                        seq_(n_[4], st, out)
+                    return
+                if cond_(c, st):
+                    seq_(n_[3], st, out)
+                elif n_[4] is not None:
+                    seq_(n_[4], st, out)
+                return
+            if k == "match":
+                ip = H.path_str(n_[2], st["env"])
+                if ip != DAT:
+                    raise _Shape("match on %s" % ip)
+                for pat, g, b in n_[3]:
+                    v = H.pat_variant(pat) or ""
+                    hit = H.pat_is_wild(pat) or (v.endswith("Some") and st["D"]) or (v.endswith("None") and not st["D"])
+                    if not hit:
+                        continue
+                    st2 = dict(st, env=dict(st["env"], **{x: DAT for x in H.pat_bindings(pat)}))
+                    if g is not None and not cond_(g, st2):
+                        continue
+                    seq_(b, st2, out)
+                    return
+                raise _Shape("no arm taken")
+            if k in ("for", "loop", "closure"):
+                raise _Shape("loop / closure")
+            if k == "mcall" and n_[2] in ("push", "extend", "extend_from_slice", "append") and H.path_str(n_[4], st["env"]) == "buf":
+                arg = H.strip(n_[5][0])
+                if n_[2] == "push":
+                    out.append("push:%s" % H.lit_int(arg))
+                else:
+                    nm = arg[2] if H.is_node(arg) and arg[0] == "mcall" else "?"
+                    out.append("extend:%s(%s)" % (nm, H.path_str(arg[4], st["env"]) if H.is_node(arg) and arg[0] == "mcall" else "?"))
+                return
+            for c_ in H.children(n_):
+                seq_(c_, st, out)
+        ok = True
         detail = {}
-        for n in ifs:
-            cond = str(n[2])
-            if "len" in cond and "is_some" in cond and n[4] is not None:
-                def seq(block):
-                    out = []
-                    for x in H.walk(block):
-                        if x[0] == "mcall" and x[2] in ("push", "extend"):
-                            arg = H.strip(x[5][0])
-                            if x[2] == "push":
-                                out.append("push:%s" % H.lit_int(arg))
-                            else:
-                                nm = arg[2] if H.is_node(arg) and arg[0] == "mcall" else "?"
-                                out.append("extend:%s(%s)" % (nm, H.path_str(arg[4]) if H.is_node(arg) and arg[0] == "mcall" else "?"))
-                    return out
-                t, e = seq(n[3]), seq(n[4])
-                detail = {"no_redeemers": t, "general": e}
-                if t == ["push:160", "extend:to_set_bytes(d)", "push:160"] and e == ["extend:to_bytes(redeemers)", "extend:to_set_bytes(d)", "extend:language_views_encoding(cost_models)"]:
-                    ok = True
-        if not ok:
+        shape_err = None
+        CM = (pnames + ["redeemers", "cost_models", "datums"])[1]
+        for E_ in (True, False):
+            for D_ in (True, False):
+                out_ = []
+                try:
+                    seq_(hir["body"], {"E": E_, "D": D_, "env": {}}, out_)
+                except _Shape as ex:
+                    shape_err = str(ex)
+                    break
+                want_ = ["push:160", "extend:to_set_bytes(%s)" % DAT, "push:160"] if (E_ and D_) else ["extend:to_bytes(%s)" % RED] + (["extend:to_set_bytes(%s)" % DAT] if D_ else []) + ["extend:language_views_encoding(%s)" % CM]
+                detail["redeemers %s, datums %s" % ("empty" if E_ else "present", "present" if D_ else "absent")] = out_
+                if out_ != want_:
+                    ok = False
+        if shape_err:
+            rep.lost("hash_script_data is outside the fragment PREIMAGE evaluates (%s)" % shape_err)
+        elif not ok:
             rep.violation("PREIMAGE", "shape", "hash_script_data's preimage is no longer [redeemers | datums | language views] / [A0 | datums | A0]: %s" % detail, {})
         else:
             rep.sample({"rule": "PREIMAGE", "sequence": detail})
